@@ -41,7 +41,7 @@ RULE = ("Hypothesis RuleBasedStateMachine over a fresh temporary repository: rul
 ASSUMPTIONS = ["ADF11-style families take the table under the key 'rates' (what install.py passes), all others 'rate'",
                "finite float64 values only (no NaN/inf): JSON round trip of NaN is outside the stated property",
                "HOME redirection before import captures every write that ignores repository_path"]
-REQUIRED_LABELS = ["machine:overwrite", "machine:same-file-siblings", "machine:rejected", "machine:w:install11:scd", "machine:w:install11:ccd", "machine:install11:via-files", "machine:reject:content-into-existing-file", "machine:repo-path:unusual", "machine:install15"]
+REQUIRED_LABELS = ["machine:overwrite", "machine:same-file-siblings", "machine:rejected", "machine:w:install11:scd", "machine:w:install11:ccd", "machine:install11:via-files", "machine:reject:content-into-existing-file", "machine:repo-path:unusual", "machine:scalar-form:f32", "machine:scalar-form:i64", "machine:scalar-form:0d", "machine:install15"]
 
 SPECIES = ["hydrogen", "deuterium", "tritium", "helium", "helium3", "carbon", "neon", "argon"]
 SP = {n: getattr(E, n) for n in SPECIES}
@@ -99,7 +99,7 @@ def pec3_data(draw):
 
 @st.composite
 def beamcx_data(draw):
-    d = {"qref": draw(_fl), "as": draw(_kind)}
+    d = {"qref": draw(_fl), "as": draw(_kind), "sas": draw(st.sampled_from(_SFORMS))}
     for x, q in (("eb", "qeb"), ("ti", "qti"), ("ni", "qni"), ("z", "qz"), ("b", "qb")):
         n = draw(_dim)
         d[x], d[q] = draw(_vec(n)), draw(_vec(n))
@@ -110,7 +110,30 @@ def beamcx_data(draw):
 def beam_data(draw):
     ne, nn, nt = draw(_dim), draw(_dim), draw(_dim)
     return {"e": draw(_vec(ne)), "n": draw(_vec(nn)), "t": draw(_vec(nt)), "sen": draw(_table((ne, nn))), "st": draw(_vec(nt)),
-            "eref": draw(_fl), "nref": draw(_fl), "tref": draw(_fl), "sref": draw(_fl), "as": draw(_kind)}
+            "eref": draw(_fl), "nref": draw(_fl), "tref": draw(_fl), "sref": draw(_fl), "as": draw(_kind),
+            "sas": draw(st.sampled_from(_SFORMS))}
+
+
+_SFORMS = ["float", "float", "f64", "f32", "i64", "0d", "int"]
+
+
+def _scalar(v, sform):
+    """(object handed to the repository, float64 the repository must return) for a scalar field: the writers document
+    plain numbers; numpy scalars of any width, 0-d arrays and Python ints are numbers too (stored as float(value))."""
+    v = float(v)
+    if sform == "f64":
+        return np.float64(v), v
+    if sform == "0d":
+        return np.array(v), v
+    if sform == "f32":
+        with np.errstate(all="ignore"):
+            x = np.float32(v)
+        if np.isfinite(x):
+            return x, float(x)
+    if sform in ("i64", "int") and abs(v) < 2.0 ** 53:
+        i = int(v)
+        return (np.int64(i) if sform == "i64" else i), float(i)
+    return v, v
 
 
 def _conv(x, kind):
@@ -340,26 +363,30 @@ class Repo:
 
     # ---- wavelength
     def do_wavelength(self, a):
-        mode, raw = a
+        mode, raw = a[0], a[1]
+        sform = a[2] if len(a) > 2 else "float"
         entries = [(spi, _charge(spi, c), tri, w) for spi, c, tri, w in raw]
         entries = _dedupe(entries, lambda e: (e[0], e[1], self._tr(e[2])[0]), lambda e: (e[0], e[1], self._tr(e[2])[1]))
         if mode == "add":
             entries = entries[:1]
             spi, q, tri, w = entries[0]
-            self._call("add_wavelength", R.add_wavelength, SP[SPECIES[spi]], q, self._tr(tri)[0], w)
+            self._call("add_wavelength", R.add_wavelength, SP[SPECIES[spi]], q, self._tr(tri)[0], _scalar(w, sform)[0])
         else:
             batch = {}
             for spi, q, tri, w in entries:
-                batch.setdefault(SP[SPECIES[spi]], {}).setdefault(q, {})[self._tr(tri)[0]] = w
+                batch.setdefault(SP[SPECIES[spi]], {}).setdefault(q, {})[self._tr(tri)[0]] = _scalar(w, sform)[0]
             self._call("update_wavelengths", R.update_wavelengths, batch)
         for spi, q, tri, w in entries:
             low = self._tr(tri)[1]
             sym = SP[SPECIES[spi]].symbol.lower()
-            self._store(("wavelength", sym, q, low), "wavelength/%s/%d.json" % (sym, q), {"wavelength": np.float64(w)})
+            self._store(("wavelength", sym, q, low), "wavelength/%s/%d.json" % (sym, q), {"wavelength": np.float64(_scalar(w, sform)[1])})
         self.ctx.label("w:wavelength:" + mode)
+        if sform != "float":
+            self.ctx.label("scalar-form:" + sform)
 
     OPS["wavelength"] = lambda: st.tuples(st.sampled_from(["add", "update"]),
-                                          st.lists(st.tuples(_sp, st.integers(0, 18), _tr, _fl), min_size=1, max_size=3))
+                                          st.lists(st.tuples(_sp, st.integers(0, 18), _tr, _fl), min_size=1, max_size=3),
+                                          st.sampled_from(_SFORMS))
 
     # ---- beam CX: key (family, donor, receiver, rq, transition, metastable)
     _BCX = ("eb", "ti", "ni", "z", "b", "qeb", "qti", "qni", "qz", "qb")
@@ -371,7 +398,7 @@ class Repo:
 
         def mk(d):
             r = {k: _conv(d[k], d["as"]) for k in self._BCX}
-            r["qref"] = d["qref"]
+            r["qref"] = _scalar(d["qref"], d.get("sas", "float"))[0]
             return r
         if mode == "add":
             entries = entries[:1]
@@ -387,7 +414,9 @@ class Repo:
             low = self._tr(tri)[1]
             ds, rs = SP[SPECIES[di]].symbol.lower(), SP[SPECIES[ri]].symbol.lower()
             val = {k: _expect(d[k], d["as"]) for k in self._BCX}
-            val["qref"] = np.float64(d["qref"])
+            val["qref"] = np.float64(_scalar(d["qref"], d.get("sas", "float"))[1])
+            if d.get("sas", "float") != "float":
+                self.ctx.label("scalar-form:" + d["sas"])
             self._store(("beam_cx", ds, rs, rq, low, ms), "beam/cx/%s/%s/%d.json" % (ds, rs, rq), val)
         self.ctx.label("w:beam_cx:" + mode)
 
@@ -401,13 +430,15 @@ class Repo:
     def _beam_rate(self, d):
         r = {k: _conv(d[k], d["as"]) for k in self._BK}
         for k in self._BS:
-            r[k] = d[k]
+            r[k] = _scalar(d[k], d.get("sas", "float"))[0]
         return r
 
     def _beam_val(self, d):
         v = {k: _expect(d[k], d["as"]) for k in self._BK}
         for k in self._BS:
-            v[k] = np.float64(d[k])
+            v[k] = np.float64(_scalar(d[k], d.get("sas", "float"))[1])
+        if d.get("sas", "float") != "float":
+            self.ctx.label("scalar-form:" + d["sas"])
         return v
 
     def do_beam_stopping(self, a):
